@@ -1710,12 +1710,16 @@ static size_t _GD_DoMplex(DIRFILE *restrict D, gd_entry_t *restrict E,
   _GD_MplexData(D, data_out, spf1, tmpbuf, spf2, rem2, return_type,
       E->EN(mplex,count_val),  start, n_read);
 
-  /* Cache the last sample read */
-  if (n_read > 0) {
+  /* Cache the last sample read -- but not of a window that began before sample
+   * zero: there the index field is padding, which equals a count_val of zero,
+   * and what is carried out of it is not what a read starting at or after
+   * sample zero finds by looking back */
+  if (n_read > 0 && first_samp >= 0) {
     E->e->u.mplex.type = return_type;
     E->e->u.mplex.sample = first_samp + n_read;
     memcpy(E->e->u.mplex.d, (char*)data_out + size * (n_read - 1), size);
-  }
+  } else if (n_read > 0)
+    E->e->u.mplex.type = GD_NULL;
 
   free(tmpbuf);
 
